@@ -224,6 +224,11 @@ def capi_jobs(tier):
                                                   (("i", 2, "<", False, 1), ("f", 4, ">", True, 2))):
                 cfg = _cfg(n, d, fc, sc, k0, mode, kind=kind, size=size, order=order, cplx=cplx, nsub=nsub)
                 hs = [h for h in hists if not (mode == "cont" and any(o[0] == "wb" and len(o[1]) > 1 for o in h))]
+                if mode == "cont":
+                    # the C API refuses any multi-block description on a continuous channel - blocks that adjoin
+                    # (no gap between them) included - and stays usable
+                    hs = hs + [[("wb", [0, 3], [0, 3], 6), ("w", 8, 2)], [("wb", [2, 7], [0, 3], 6), ("w", 12, 2)],
+                               [("w", 0, 2), ("wb", [2, 4, 6], [0, 2, 4], 6), ("w", 9, 1)]]
                 for i in range(0, len(hs), 20):
                     jobs.append(("capi", dict(cfg), hs[i:i + 20], "C-API %d/%d %s %s" % (n, d, mode, label)))
     return jobs
